@@ -69,9 +69,9 @@ for name in sorted(os.listdir(SEEDED)):
     breaks = meta.get("breaks_property", True)
     verdict = ("caught" if res.get("exit") == 1 else "MISSED" if res.get("exit") == 0 else "ERROR") if breaks else \
               ("quiet (correct)" if res.get("exit") == 0 else "FALSE ALARM" if res.get("exit") == 1 else "ERROR")
-    if breaks and meta.get("needs_tier") == "thorough" and tier == "quick" and res.get("exit") == 0:
+    if breaks and meta.get("needs_tier") == "thorough" and tier == "quick" and res.get("exit") in (0, None):
         tr = meta.get("thorough_result", {})
-        verdict = "not visible at quick by construction; thorough: " + ("caught (%s)" % tr.get("check") if tr.get("caught") else "NOT RECORDED")
+        verdict = ("not visible at quick by construction" if res.get("exit") == 0 else "not run at quick (needs the thorough tier by construction)") + "; thorough: " + ("caught (%s)" % tr.get("check") if tr.get("caught") else "NOT RECORDED")
     fv = res.get("first_violation") or {}
     kind = "breaks C10" if breaks else ("meant as breaking; C10 holds (see meta.json)" if meta.get("my_assessment") else "refactoring, C10 holds")
     rows.append((name, kind, verdict, fv.get("check", "-"), fv.get("run", "-"),
